@@ -44,6 +44,8 @@ type C17Case struct {
 	Aborts int `json:"aborts,omitempty"`
 	// Clones (sum): this many further files, copies of the generated ones, follow in glob order
 	Clones int `json:"clones,omitempty"`
+	// DupLink (sum): "hard" or "sym" - the first file is matched a second time under another name (zdup.wsp)
+	DupLink string `json:"dup_link,omitempty"`
 }
 
 func noteLastCase(c interface{}) { noteCaseInFlight(c) }
@@ -181,6 +183,19 @@ func runC17(c C17Case, ev *Evid) (fs []Finding) {
 			return
 		}
 		firstPath := filepath.Join(base, files[0].Dir, files[0].Name)
+		if c.DupLink != "" {
+			// one file under two names inside the item (both names are read, the file counts twice)
+			dup := filepath.Join(base, files[0].Dir, "zdup.wsp")
+			var lerr error
+			if c.DupLink == "hard" {
+				lerr = os.Link(firstPath, dup)
+			} else {
+				lerr = os.Symlink(files[0].Name, dup)
+			}
+			if lerr == nil {
+				files = append(files, TreeFile{Dir: files[0].Dir, Name: "zdup.wsp", Spec: files[0].Spec})
+			}
+		}
 		held := make(chan struct{})
 		release := make(chan struct{})
 		go func() {
@@ -199,7 +214,19 @@ func runC17(c C17Case, ev *Evid) (fs []Finding) {
 		out := filepath.Join(dir, "sum.txt")
 		sc := &cmd.SumCommand{SrcBase: base, ItemPattern: "s1", SrcPattern: "*.wsp", ArchiveID: c.ArchiveID, TextOut: out, ShowHeader: true}
 		var err error
-		pm := guard(func() { err = sc.Execute() })
+		var pm string
+		sumDone := make(chan struct{})
+		go func() {
+			defer close(sumDone)
+			pm = guard(func() { err = sc.Execute() })
+		}()
+		select {
+		case <-sumDone:
+		case <-time.After(60 * time.Second):
+			<-release
+			add("sum-hang", "sum over %d files (dup-link=%q) did not return within 60 s; every file alone is read at once", len(files), c.DupLink)
+			return
+		}
 		<-release
 		if pm != "" || err != nil {
 			add("sum-fails", "sum over %d files: %v %s", len(files), err, pm)
@@ -442,6 +469,9 @@ func genC17(t *rapid.T) C17Case {
 		}
 		if rapid.IntRange(0, 3).Draw(t, "manyFiles") == 0 {
 			c.Clones = rapid.IntRange(25, 200).Draw(t, "clones")
+		}
+		if rapid.IntRange(0, 4).Draw(t, "dupLink") == 0 {
+			c.DupLink = rapid.SampledFrom([]string{"hard", "sym"}).Draw(t, "dupKind")
 		}
 		if rapid.IntRange(0, 2).Draw(t, "oneArchive") == 0 {
 			c.ArchiveID = rapid.IntRange(0, len(l.Archives)-1).Draw(t, "archive")
